@@ -12,3 +12,6 @@ open GoSQLXModel
 #print axioms Props.C05.adjacent_locations_ordered
 #print axioms Props.C05.token_starts_at_nonblank
 #print axioms Props.C05.column_is_byte_distance
+#print axioms Lex.spans_slice
+#print axioms Lex.tokenize_spell2
+#print axioms Props.C05.reference_grammar_spans
